@@ -91,7 +91,8 @@ def judge(E, M):
         return False, f"columns not orthonormal (max deviation {np.abs(G - np.eye(E.shape[1])).max():.2e})"
     d = np.abs(E @ E.T - Pi).max() if n else 0.0
     if d > 1e-6:
-        return False, f"span differs from the unit eigenspace (|EE^T - Pi|max = {d:.2e}; returned {E.shape[1]} columns, unit eigenspace has dimension {r})"
+        tag = "NEAR-UNIT " if (E.shape[1] == r and d < 1e-2) else ""
+        return False, f"{tag}span differs from the unit eigenspace (|EE^T - Pi|max = {d:.2e}; returned {E.shape[1]} columns, unit eigenspace has dimension {r})"
     return True, ""
 
 
